@@ -86,12 +86,14 @@ PROPS = {
         # functions that cannot be brought within the verifier's reach (methods on the checker's state): a bounded
         # stand-in through the REAL front end (lex + parse + check), exhaustive over the stated space; labelled bounded
         'bounded_standins': [
-            {'oracle': 'incan::static_type', 'cases': 1176, 'function': 'TypeChecker: annotated let / return / call argument of a binary expression',
-             'bound': 'exhaustive over 7 operators x int/float operand kinds x int/float annotation x 7 right-operand forms (variable, const, literal, 0, negative literal, parenthesised, double minus) x 3 binding positions; one fixed program shape'},
-            {'oracle': 'incan::emit_promotion', 'cases': 576, 'function': 'lowering (operand typing, compound-assignment desugaring) + emit_binop_expr for + - * and **',
-             'bound': 'exhaustive over 4 operators x 4 left forms (int/float variable, int/float field) x 9 right forms (variables, fields, len(), index, literals) x plain/compound x flat / inner block shadowing outer variables of the other kind; checks which operands are promoted / pow vs powf in the generated Rust'},
-            {'oracle': 'incan::compound_assign', 'cases': 24, 'function': 'TypeChecker::check_statement, CompoundAssignment arm',
-             'bound': 'exhaustive over 6 compound operators x int/float target x int/float value; one fixed program shape'},
+            {'oracle': 'incan::static_type', 'cases': 2352, 'function': 'TypeChecker: annotated let / return / call argument of a binary expression',
+             'bound': 'exhaustive over 7 operators x int/float operand kinds x int/float annotation x 7 right-operand forms (variable, const, literal, 0, negative literal, parenthesised, double minus) x 3 binding positions x bare / parenthesised right-hand side; fixed program shapes'},
+            {'oracle': 'incan::static_type_nested', 'cases': 1500, 'function': 'TypeChecker on nested arithmetic (check_binary applied recursively through check_expr, Paren, Unary)',
+             'bound': 'a seeded sample of 1500 random expression trees of depth <= 3 over int/float variables, fields and literals with all seven operators, optionally under a comparison; annotated let; NOT exhaustive'},
+            {'oracle': 'incan::emit_promotion', 'cases': 704, 'function': 'lowering (operand typing, compound-assignment desugaring) + emit_binop_expr for + - * and **',
+             'bound': 'exhaustive over 4 operators x 4 left forms (int/float variable, int/float field) x 11 right forms (variables, fields, len(), index, literals incl. literal ** literal beyond i64) x plain/compound x flat / inner block shadowing outer variables of the other kind; checks which operands are promoted / pow vs powf in the generated Rust'},
+            {'oracle': 'incan::compound_assign', 'cases': 72, 'function': 'parser desugaring of compound assignment on fields / list elements + TypeChecker::check_statement, CompoundAssignment arm',
+             'bound': 'exhaustive over 6 compound operators x int/float target x int/float value x local / field / list-element target; fixed program shapes'},
         ],
         'assumptions': ['A6: integer literals in the syntax tree / IR are non-negative (the lexer scans digits), so negating one cannot overflow'],
     },
